@@ -1036,6 +1036,10 @@ class Frame:
         if q == "builtins.type":
             return OTHER
         if q == "builtins.zip":
+            # a row holds one element of each argument: its components are drawn from the union of the arguments' element types
+            parts = [elems_of(a) for a in args]
+            if parts and all(parts) and all(all(is_seq(x) or x == "str" for x in a) for a in args):
+                return seq(seq(frozenset().union(*parts)))
             return seq(seq(TOP))
         if q in ("builtins.print", "builtins.hash", "builtins.id"):
             return OTHER
